@@ -179,5 +179,56 @@ func ruleTeletextPageNumber(p *Prog, l *Ledger, tier string) {
 	} else {
 		l.Fail(rule, nb.Name(), key2, "", "newTeletextPageBuffer and parsePacketHeader encode page numbers differently: "+bad+": the selected page is never recognised")
 	}
-	l.Min(rule, 2, 2)
+	// "no page selected" is the pair (magazine 0, page 0) tested in the header parser: no selectable page may be stored
+	// as that pair (a magazine kept on its three transmitted bits turns page 800 into it)
+	key3 := rule + "|selected-page-not-sentinel"
+	zeroTest := func(field string) bool {
+		for _, b := range hd.Blocks {
+			for _, ins := range b.Instrs {
+				bo, ok := ins.(*ssa.BinOp)
+				if !ok || (bo.Op != token.EQL && bo.Op != token.NEQ) {
+					continue
+				}
+				for _, pr := range [][2]ssa.Value{{bo.X, bo.Y}, {bo.Y, bo.X}} {
+					if _, f, _ := loadedField(pr[0]); f == field {
+						if c, ok := constInt(pr[1]); ok && c == 0 {
+							return true
+						}
+					}
+				}
+			}
+		}
+		return false
+	}
+	if !zeroTest("magazineNumber") || !zeroTest("pageNumber") {
+		l.Prove(rule, nb.Name(), key3, "", "the header parser does not use magazine 0 / page 0 as the sign that no page is selected")
+		l.Min(rule, 3, 3)
+		return
+	}
+	var mag ssa.Value
+	for _, v := range fieldStores(nb.Blocks, "teletextPageBuffer")["magazineNumber"] {
+		mag = v
+	}
+	if mag == nil {
+		l.Undecide(rule, nb.Name(), key3, "", "store to teletextPageBuffer.magazineNumber not found in newTeletextPageBuffer")
+		return
+	}
+	bad = ""
+	for page := int64(100); page < 900 && bad == ""; page++ {
+		m, ok := evalInt(mag, map[ssa.Value]int64{nb.Params[0]: page}, 0)
+		pg, ok2 := evalInt(sel, map[ssa.Value]int64{nb.Params[0]: page}, 0)
+		if !ok || !ok2 {
+			l.Undecide(rule, nb.Name(), key3, "", "the selected-magazine expression could not be evaluated")
+			return
+		}
+		if m == 0 && pg == 0 {
+			bad = fmt.Sprintf("page %d is stored as magazine 0, page 0", page)
+		}
+	}
+	if bad == "" {
+		l.Prove(rule, nb.Name(), key3, "", "none of the pages 100 to 899 is stored as (magazine 0, page 0), the pair the header parser reads as \"no page selected\"")
+	} else {
+		l.Fail(rule, nb.Name(), key3, p.Pos(mag.Pos()), bad+", which the header parser takes for \"no page selected\": the reader then locks on the first subtitle page it sees instead of the one asked for")
+	}
+	l.Min(rule, 3, 3)
 }
